@@ -26,6 +26,7 @@ PROPERTY = {
         "algebraic loops across nodes are not generated (no unique meaning)",
     ],
 }
+PROPERTY["rule"] += ' Arm vf_cross_type: projections between two node types (1-3 sources, 2-12 targets, pairwise distinct targets, optional back projection), vectorised; with ten and more targets of a scalar source the indexed edge path is taken.'
 
 RTOL, ATOL = 1e-9, 1e-12
 
